@@ -1785,17 +1785,17 @@ def convectionUpwindTerm(u: FaceVariable, *args) -> csr_array:
     elif (type(u.domain) is Grid2D):
         return convectionUpwindTerm2D(u, *args)[0]
     elif (type(u.domain) is CylindricalGrid2D):
-        return convectionUpwindTermCylindrical2D(u)[0]
+        return convectionUpwindTermCylindrical2D(u, *args)[0]
     elif (type(u.domain) is PolarGrid2D):
-        return convectionUpwindTermPolar2D(u)[0]
+        return convectionUpwindTermPolar2D(u, *args)[0]
     elif (type(u.domain) is Grid3D):
-        return convectionUpwindTerm3D(u)[0]
+        return convectionUpwindTerm3D(u, *args)[0]
     elif (type(u.domain) is CylindricalGrid3D):
-        return convectionUpwindTermCylindrical3D(u)[0]
+        return convectionUpwindTermCylindrical3D(u, *args)[0]
     elif (type(u.domain) is SphericalGrid1D):
-        return convectionUpwindTermSpherical1D(u)
+        return convectionUpwindTermSpherical1D(u, *args)
     elif (type(u.domain) is SphericalGrid3D):
-        return convectionUpwindTermSpherical3D(u)[0]
+        return convectionUpwindTermSpherical3D(u, *args)[0]
     else:
         raise Exception(
             "convectionUpwindTerm is not defined for this Mesh type.")
